@@ -49,7 +49,17 @@ def _arg(a):
     return "-" if a is None else str(a)
 
 
+def plain_op(op):
+    """["B", v, "kids", [a, b], form] / ["B", v, "parent", p]: node v is CONSTRUCTED with these arguments
+    (BinaryNode(name, children=[a, b]) | (name, left=a, right=b) | both; BinaryNode(name, parent=p)) instead of being
+    created bare and assigned to afterwards - for the model the assignment on the so far untouched node v"""
+    if op[0] == "B":
+        return ["C", op[1], list(op[3]), "none"] if op[2] == "kids" else ["P", op[1], op[3], "none"]
+    return op
+
+
 def op_token(op) -> str:
+    op = plain_op(op)
     k = op[0]
     if k == "P" or k == "L" or k == "R":
         return f"{k}:{op[1]}:{_arg(op[2])}:{op[3]}"
@@ -81,6 +91,7 @@ def rehydrate(case):
 
 
 def op_args(op):
+    op = plain_op(op)
     k = op[0]
     if k in ("P", "L", "R"):
         return [op[2]]
@@ -227,6 +238,8 @@ class World:
         self.count += 1
         if var is not None:
             self.interlude(var)
+        if op[0] == "B":
+            return self.construct(op)
         k, v = op[0], self.nodes[op[1]]
         _ARM["op"] = op      # the class of the exception a raising hook throws is a function of the op
         try:
@@ -268,6 +281,30 @@ class World:
             return False
         finally:
             _ARM["kind"] = _ARM["point"] = None
+
+    def construct(self, op):
+        """node op[1] has not been touched yet: replace the bare object by one built with constructor arguments"""
+        i = op[1]
+        cls = type(self.nodes[i])
+        _ARM["kind"] = _ARM["point"] = None
+        try:
+            if op[2] == "parent":
+                new = cls(str(i), parent=self.obj(op[3]))
+            else:
+                a, b = (self.obj(x) for x in op[3])
+                form = op[4]
+                if form == 0:
+                    new = cls(str(i), children=[a, b])
+                elif form == 1:
+                    new = cls(str(i), left=a, right=b)
+                else:
+                    new = cls(str(i), left=a, right=b, children=[a, b])
+        except Exception:
+            return False          # the bare, unlinked object stays (a refused constructor call must not have linked anything)
+        del self.ids[id(self.nodes[i])]
+        self.nodes[i] = new
+        self.ids[id(new)] = i
+        return True
 
     # observation: only public attributes of the real objects
     def raw(self):
@@ -440,6 +477,7 @@ def _expected_effect(w, op, before):
     """C11's effect clauses recomputed from the before-snapshot (ids as strings, '-' = empty).
     Returns (must_be_rejected, expected_snapshot_if_accepted or None when the clause does not
     determine it)."""
+    op = plain_op(op)
     n = w.n
     par = [p for p, _ in before]
     ch = [list(c) for _, c in before]
@@ -790,6 +828,19 @@ def gen_histories(rng, tier, fault_rate=0.25):
             ops = random_history(rng, n, length, fault_rate)
         d = {"cls": "binary", "n": n, "asrt": 1, "ops": ops}
         out.append(d)
+    # (function of the history, no random stream) an op that is the FIRST to mention node v, and assigns children (two
+    # members) or a parent to v without a hook fault, is sometimes spelt as a constructor call with those arguments
+    for d in out:
+        seen = set()
+        for j, op in enumerate(d["ops"]):
+            v = op[1]
+            if v not in seen and len(op) == 4 and op[3] == "none" and (v * 31 + j * 7 + len(d["ops"])) % 3 == 0:
+                if op[0] == "C" and op[2] is not None and len(op[2]) == 2 and v not in op[2]:
+                    d["ops"][j] = ["B", v, "kids", list(op[2]), (v + j) % 3]
+                elif op[0] == "P" and op[2] != v:
+                    d["ops"][j] = ["B", v, "parent", op[2]]
+            seen.add(v)
+            seen.update(x for x in op_args(op) if x is not None)
     # a separate stream (own PRNG, so the histories above are what they were): some histories get interludes
     r2 = random.Random(rng.random())
     for d in out:
